@@ -13,6 +13,8 @@ observed on
     every pixel is rebuilt from `numpy.fft.fftfreq` in float64,
   * explicit (alpha, phi) sample arrays (incl. alpha = 0 and phi = +-pi) -> `_evaluate_from_angular_grid`,
   * a real pipeline: `Waves(delta).apply_ctf(ctf)`; the DFT of the result is the kernel,
+  * the complete CTF (aperture, temporal and spatial envelope switched on): wherever it transmits (> 0.05) its phase
+    must still be the aberration phase,
   * ensembles: one coefficient given as a distribution; every member is compared with the scalar oracle.
 
 Metamorphic clause (independent of the chi model): kernel[all phi_nm + delta](alpha, phi) == kernel(alpha, phi - delta).
@@ -36,7 +38,7 @@ RULE = ("fixed: each of the 25 polar symbols alone, each of the 12 (C_nm, phi_nm
 CLAUSES = ["symbol-set", "stored-coefficient", "alias-get", "defocus-is-minus-C10", "unset-are-zero", "grid-kernel",
            "explicit-kernel", "alpha-zero-is-one", "phi-pm-pi", "rotation-metamorphic", "rotation-oracle", "apply-kernel",
            "scherzer", "ensemble-member-kernel", "grid-kernel-f32", "explicit-kernel-f32", "rotation-metamorphic-f32",
-           "rotation-oracle-f32"]
+           "rotation-oracle-f32", "full-ctf-phase", "full-ctf-phase-f32"]
 QUICK = dict(n=420, time=40)
 THOROUGH = dict(n=24000, time=300, shards=16)
 ASSUMPTIONS = ["wavelength taken from CODATA-2014 closed form (checked against abTEM by C24)",
@@ -214,6 +216,11 @@ def gen(rng, tier):
         # realistic uncorrected-microscope values
         coeffs.update({"C30": float(rng.uniform(0.3e7, 2.5e7)), "C10": float(-rng.uniform(100, 900))})
     case.update(kind="subset", coeffs=coeffs, names=_names(rng, coeffs, float(rng.choice([0.0, 0.5, 1.0]))))
+    if case["cls"] == "CTF" and rng.random() < 0.5:
+        # the complete CTF (aperture and envelopes are real and non-negative: they must not change the phase)
+        case["full"] = {"cutoff": float(rng.uniform(0.3, 1.3) * amax * 1e3), "soft": bool(rng.random() < 0.5),
+                        "focal": float(rng.choice([0.0, rng.uniform(0, 40)])),
+                        "angular": float(rng.choice([0.0, rng.uniform(0, 1.0)]))}
     return case
 
 
@@ -264,7 +271,9 @@ def fixed_cases(tier):
     full = {sym: val(sym, i) for i, sym in enumerate(SYMBOLS)}
     for how in HOWS:
         for cls in ("Aberrations", "CTF"):
-            out.append(mk(dict(full), {sym: ALIAS_OF[sym] for sym in full}, "float64", how, cls))
+            out.append(mk(dict(full), {sym: ALIAS_OF[sym] for sym in full}, "float64", how, cls,
+                          **({"full": {"cutoff": 0.6 * amax * 1e3, "soft": how != "dict", "focal": 8.0, "angular": 0.2}}
+                             if cls == "CTF" else {})))
     out.append({"energy": 80e3, "gpts": [8, 8], "sampling": [0.1, 0.1], "precision": "float64", "cls": "CTF", "how": "kwargs",
                 "pt_seed": 5, "delta": 0.4, "apply": True, "kind": "scherzer", "cs": 1.3e7, "cs_name": "Cs",
                 "word": "scherzer", "coeffs": {}, "names": {}})
@@ -314,7 +323,7 @@ def _tol(case, pscale):
     """(rtol-like factor) absolute tolerance on the complex kernel."""
     if case["precision"] == "float64":
         return 2e-13 * (1.0 + pscale)
-    return 4e-5 * (1.0 + pscale)
+    return 5e-5 * (1.0 + pscale)
 
 
 def _points(case, amax):
@@ -392,6 +401,26 @@ def _rotation(ctx, case, coeffs, lam, got_e, pts, tol):
               atol=tol, scale=1.0, what="grid-less object")
 
 
+def _full_ctf(ctx, case, coeffs, lam, tol):
+    """CTF with aperture and envelopes: wherever it transmits, its phase is still exp(-2 pi i chi / lambda)."""
+    from abtem import transfer
+    full = case["full"]
+    g, s = tuple(case["gpts"]), tuple(case["sampling"])
+    ctf = transfer.CTF(semiangle_cutoff=full["cutoff"], soft=full["soft"], focal_spread=full["focal"],
+                       angular_spread=full["angular"], aberration_coefficients=coeffs, energy=case["energy"], gpts=g, sampling=s)
+    got = np.asarray(ctf._evaluate_kernel()).astype(np.complex128)
+    alpha_g, phi_g = grid_angles(g, s, lam)
+    want = kernel_ref(coeffs, alpha_g, phi_g, lam)
+    mod = np.abs(got)
+    mask = mod > 0.05
+    ctx.monitor("full-ctf-transmitting-pixels", int(mask.sum()))
+    if mask.any():
+        sfx = "-f32" if case["precision"] == "float32" else ""
+        ctx.close(got[mask] / mod[mask], want[mask], "full-ctf-phase" + sfx, rtol=0, atol=3 * tol, scale=1.0, full=full)
+    # an open pixel at zero angle: DC is transmitted with unit weight
+    ctx.close(got[0, 0], 1.0, "full-ctf-phase", rtol=0, atol=1e-6)
+
+
 def _apply(ctx, case, obj, coeffs, lam, tol):
     """Real pipeline: a delta wave passed through apply_ctf; its DFT is the kernel."""
     import abtem
@@ -444,6 +473,9 @@ def check(ctx, case):
             ctx.close(float(obj.C10), -want_df, "scherzer", rtol=1e-12)
             if case["cls"] == "CTF":
                 ctx.close(float(obj.scherzer_defocus), want_df, "scherzer", rtol=1e-12)
+            # observation only (the property does not cover it): 'scherzer' is resolved when it is *set*
+            late = getattr(transfer, case["cls"])(aberration_coefficients={"defocus": case["word"], "C30": cs}, energy=case["energy"])
+            ctx.note("scherzer-set-before-Cs-gives-zero-defocus" if float(late.defocus) == 0.0 else "scherzer-set-before-Cs-resolved")
             coeffs = dict(coeffs)
             coeffs["C30"] = cs
             coeffs["C10"] = float(obj.C10)   # value compared above; the kernel must use exactly the stored one
@@ -485,6 +517,8 @@ def check(ctx, case):
         _rotation(ctx, case, coeffs, lam, got_e, pts, tol)
         if case.get("apply"):
             _apply(ctx, case, obj, coeffs, lam, tol)
+        if case.get("full"):
+            _full_ctf(ctx, case, coeffs, lam, tol)
         # writing through `defocus` and reading through C10 (and back) on a live object
         obj.defocus = 123.25
         ctx.expect(float(obj.C10) == -123.25 and float(obj.aberration_coefficients["C10"]) == -123.25,
